@@ -545,6 +545,31 @@ class Names:
         self.v_desc = self._variant(self.me_enum, lambda ty: ty.endswith('ErrorKind'))
         self.qb_capacity = self.field(self.QB, lambda ty: ty.replace(' ', '') == 'core::option::Option<usize>')
         self.qb_handler = self.field(self.QB, lambda ty: 'dyncore::ops::function::Fn(std::io::error::Error)' in ty.replace(' ', ''))
+        if self.qb_capacity is None:
+            # several Option<usize> settings: the capacity is the one the public with_capacity() setter fills
+            self.qb_capacity = self._field_set_by(self.QB, 'with_capacity')
+
+    def _field_set_by(self, adt, setter):
+        bs = self.cad.method(adt, setter)
+        if len(bs) != 1:
+            return None
+        try:
+            rts = ret_terms(Terms(bs[0]), [0])
+        except Exception:
+            return None
+        if len(rts) != 1:
+            return None
+        hits = set()
+        for y in walk(list(rts)[0]):
+            # `mut self` updated in place: ('update', base, path, value)
+            if y[0] == 'update' and y[3][0] == 'adt' and y[3][2] == 'Some' and len(y[3][3]) == 1 and peel(y[3][3][0][1]) == ('param', 2) and y[2]:
+                hits.add(y[2][-1])
+            if y[0] == 'adt':
+                for n_, v_ in y[3]:
+                    if v_[0] == 'adt' and v_[2] == 'Some' and len(v_[3]) == 1 and peel(v_[3][0][1]) == ('param', 2):
+                        hits.add(n_)
+        hits = set(h for h in hits if isinstance(h, str) and not h.isdigit())
+        return list(hits)[0] if len(hits) == 1 else None
 
     def field(self, adt, pred):
         hits = [f['name'] for f in adt_fields(self.cad, adt) or [] if pred(f['ty'])]
